@@ -241,13 +241,19 @@ def gen_scripted(ctx):
             rand_store(c, rng, "small")
         cases.append(finish_case(c))
     # S7 the directory is removed between close and rename (rename entry delayed by strace)
-    for n in range(2 if quick else 6):
+    for n in range(4 if quick else 12):
         c = Case("midrm%d" % n, ndirs=2)
-        c.inject = ["renameat:delay_enter=300000"]
+        c.inject = ["renameat:delay_enter=1000000"]
         c.add("setdir", dir="$D0")
         act = "rmdir" if n % 2 == 0 else "rmdir_mkdir"
-        c.intervene = {"wait_tmp_size": -1, "action": act, "dir": "$D0"}
-        c.env["interv"] = act
+        if n % 4 >= 2:
+            # the directory disappears between open and write: the write goes to an unlinked file
+            c.inject = ["openat:delay_exit=400000:when=300+"]
+            c.add("arm_open")
+            c.intervene = {"wait_tmp_size": -1, "action": act, "dir": "$D0", "delay_ms": 0}
+        else:
+            c.intervene = {"wait_tmp_size": -1, "action": act, "dir": "$D0", "delay_ms": 60}
+        c.env["interv"] = act + ("@open" if n % 4 >= 2 else "")
         c.store("setconf", cfg=cfg(rng, "small"))
         if act == "rmdir":
             c.env["gone"].add(0)
@@ -655,8 +661,11 @@ def eval_scripted(ctx, c, out):
         if o == "mkdir":
             items.append("IEnv (MkDir %s)" % gN(int(op["dir"][2:])))
             continue
-        if o in ("seteuid", "rlimit", "chmod", "mount_tmpfs", "remount_ro", "fill", "arm_close", "xfsz_default", "digest"):
+        if o in ("seteuid", "rlimit", "chmod", "mount_tmpfs", "remount_ro", "fill", "arm_close", "arm_open", "xfsz_default", "digest"):
             if r["err"] != "ok":
+                if o in ("seteuid", "mount_tmpfs", "remount_ro") and r["err"] in ("EPERM", "EACCES"):
+                    ctx.count((name, "skipped"), nontrivial=False, kind="skipped/no-privilege-for-%s" % o)
+                    return None
                 ctx.broken("driver", "case %s: harness operation %s failed: %s" % (name, o, r["err"]))
                 return None
             continue
@@ -675,6 +684,7 @@ def eval_scripted(ctx, c, out):
             items.append("IOp (SetDir %s) (%s) (%s, %s)" % (gN(d), pl, gbool(ok), gopt(mem_hex, lambda h: "(Lit %s)" % ihex(bytes.fromhex(h)))))
             trace_terms += [g_tstep(s) for s in steps.get(i, [])]
             newcwd = dir_index(r["dir"], dirs)
+            cwd_before = cwd
             # oracle: a successful load makes the in-memory configuration equal to the file
             if newcwd == d and d != cwd and ok and disk.get(d) is not None and mem_hex != disk.get(d):
                 ctx.fail("reload:memory-differs-from-file", "after AssetsSetDir the in-memory configuration is not the stored file", case_id)
@@ -682,7 +692,7 @@ def eval_scripted(ctx, c, out):
                 ctx.fail("reload:stored-file-not-parseable/%s" % kind, "the real loader cannot read the ClientConf left on disk (%s)" % r["err"], case_id)
             cwd = newcwd
             mem_before = mem_hex
-            ctx.count((name, i, "setdir"), nontrivial=True, kind="setdir/" + ("ok" if ok else "err"))
+            ctx.count((name, i, "setdir"), nontrivial=True, kind="setdir/" + ("same" if d == cwd_before else "ok" if ok else "err"))
             continue
         # ---- a store
         want = r["want"]
@@ -712,12 +722,17 @@ def eval_scripted(ctx, c, out):
         elif d in meta["full"] and landed is None and not ok:
             fc, cause = "now", "quota-enospc-create"
         elif meta["interv"]:
-            envs = ["(3, RmDir %s)" % gN(d)] + (["(3, MkDir %s)" % gN(d)] if meta["interv"] == "rmdir_mkdir" else [])
-            cause = "dir-removed-before-rename"
+            at = 1 if meta["interv"].endswith("@open") else 3
+            envs = ["(%d, RmDir %s)" % (at, gN(d))] + (["(%d, MkDir %s)" % (at, gN(d))] if meta["interv"].startswith("rmdir_mkdir") else [])
+            cause = "dir-removed-before-write" if at == 1 else "dir-removed-before-rename"
         elif meta["rename_fail"]:
             frn, cause = "now", "rename-fails"
         elif meta.get("close_fail"):
             fcl, cause = "now", "close-fails"
+        if cause in ("dir-removed-before-rename", "dir-removed-before-write") and ok:
+            # the parent lost the race against the (delayed) rename: nothing was injected
+            ctx.count((name, "skipped"), nontrivial=False, kind="skipped/intervention-missed")
+            return None
         after_ls = {}
         for k in range(i + 1, len(res)):
             if c.script[k]["op"] != "ls":
@@ -730,7 +745,7 @@ def eval_scripted(ctx, c, out):
                         cont = e["dig"].get("hex", "")
             after_ls[dd] = cont
         after = after_ls.get(d, prev)
-        removed = cause in ("dir-gone", "dir-removed-before-rename")
+        removed = cause in ("dir-gone", "dir-removed-before-rename", "dir-removed-before-write")
         cls = "ok" if ok else "err"
         ctx.count((name, i, o, cause), nontrivial=True, kind="%s/%s/%s" % ("setconf" if o == "setconf" else "mutate", cause, cls))
         if after is None and prev is not None and not removed:
@@ -880,12 +895,20 @@ def run(ctx):
     if kills:
         o = outs[len(scripted)]
         ctx.sample({"case": kills[0].name, "trials": o.get("kills", [])[:3]})
-    ctx.require_kinds(["setconf/healthy/ok", "mutate/healthy/ok", "setconf/marshal/err", "setconf/unwritable/err",
-                       "setconf/quota-rlimit/err", "setconf/quota-enospc/err", "setconf/readonly-fs/err",
-                       "setconf/dir-gone/err", "setconf/dir-removed-before-rename/err", "setconf/rename-fails/err",
-                       "setconf/close-fails/err", "setdir/ok", "setdir/err",
-                       "kill/kp-before-rename/prev/in-temp", "kill/kp-mid-write/prev/in-temp"])
     hist = ctx.cov["histogram"]
+    need = ["setconf/healthy/ok", "mutate/healthy/ok", "setconf/marshal/err", "setconf/unwritable/err",
+            "setconf/quota-rlimit/err", "setconf/quota-enospc/err", "setconf/readonly-fs/err",
+            "setconf/dir-gone/err", "setconf/dir-removed-before-rename/err", "setconf/dir-removed-before-write/err",
+            "setconf/rename-fails/err", "setconf/close-fails/err", "setdir/ok", "setdir/err",
+            "kill/kp-before-rename/prev/in-temp", "kill/kp-mid-write/prev/in-temp"]
+    if hist.get("skipped/intervention-missed"):
+        need.remove("setconf/dir-removed-before-rename/err")
+        need.remove("setconf/dir-removed-before-write/err")
+    if hist.get("skipped/no-privilege-for-seteuid"):
+        need.remove("setconf/unwritable/err")
+    if hist.get("skipped/no-privilege-for-mount_tmpfs") or hist.get("skipped/no-privilege-for-remount_ro"):
+        need = [k for k in need if k not in ("setconf/quota-enospc/err", "setconf/readonly-fs/err")]
+    ctx.require_kinds(need)
     for kind in ("small", "big", "mixed"):
         if not any(k.startswith("kill/%s/" % kind) for k in hist):
             ctx.broken("generator-selftest", "no kill trial of kind %s ran" % kind)
